@@ -134,7 +134,7 @@ def check_d(desc, acc, detour):
 
 
 def check_one(desc, acc):
-    for detour in (False, True):
+    for detour in (False, True, 2):
         if desc["kind"] == "H":
             check_h(desc, acc, detour)
         else:
